@@ -26,8 +26,7 @@ MODDIR = os.path.join(common.SPEC, "grid")
 # double operations on numbers of magnitude <= ~50 lattice units; rotation matrices accumulate ~1e-15 per step).
 UNIT_TOL = 1e-9
 HEX_PITCHES = (1.0, 16.79)
-CART_SQUARE = (1.26, 1.26)
-CART_RECT = (1.0, 2.5)
+CART_UNIT = 1.26            # cm per length unit of CartSymmetry (cells are w x h units)
 SQ3 = math.sqrt(3.0)
 
 K_ASSEMBLY_REFUSAL = "HexAssembly.rotate:refuses-multiple-of-60-degrees"
@@ -233,67 +232,75 @@ def hex_traces(ntraces, nev, seed, nrings=13):
 # Cartesian part
 # ------------------------------------------------------------------------------------------------------------
 class CartWorld:
+    """real CartesianGrids: built by fromRectangle with the pitch of a chain's first entry, then changePitch along the chain"""
+
     def __init__(self, r):
         armi_ready()
         from armi.reactor import geometry, grids
 
-        self.grids = grids
+        self.grids, self.r = grids, r
         D, B = geometry.DomainType, geometry.BoundaryType
-        self.g = {}
+        self.sym = {}
         for th in (True, False):
             for bc, (dom, bnd) in {"periodic": (D.QUARTER_CORE, B.PERIODIC), "reflective": (D.QUARTER_CORE, B.REFLECTIVE),
                                    "full": (D.FULL_CORE, B.NO_SYMMETRY)}.items():
-                sym = geometry.SymmetryType(dom, bnd, th)
-                for wh in (CART_SQUARE, CART_RECT):
-                    # gridBlueprint: isOffset = not isThroughCenterAssembly
-                    self.g[th, bc, wh] = grids.CartesianGrid.fromRectangle(wh[0], wh[1], numRings=r + 2, symmetry=sym,
-                                                                            isOffset=not th)
+                self.sym[th, bc] = geometry.SymmetryType(dom, bnd, th)
+        self.cache = {}
+
+    def grid(self, th, bc, chain):
+        """chain = ((w0,h0), (w1,h1), ...) in whole length units"""
+        key = (th, bc, tuple(tuple(p) for p in chain))
+        if key not in self.cache:
+            w, h = key[2][0]
+            # gridBlueprint: isOffset = not isThroughCenterAssembly
+            g = self.grids.CartesianGrid.fromRectangle(w * CART_UNIT, h * CART_UNIT, numRings=self.r + 2,
+                                                       symmetry=self.sym[th, bc], isOffset=not th)
+            for w, h in key[2][1:]:
+                g.changePitch(w * CART_UNIT, h * CART_UNIT)
+            self.cache[key] = g
+        return self.cache[key]
 
 
-def cart_pitches(bc):
-    return (CART_SQUARE,) if bc == "periodic" else (CART_SQUARE, CART_RECT)
+CART_HALF = (CART_UNIT / 2.0, CART_UNIT / 2.0)   # the spec's real coordinates are in half length units
 
 
-def cart_state_case(cw, st, obs, col):
+def cart_state_case(g, st, obs, col, how="", chain=None):
+    """all queries of one (th, bc, cell, pitch) on the grid g (fresh, or reached through changePitch: how = ':afterChangePitch')"""
     th, bc, c = st["th"], st["bc"], st["c"]
     i, j = c
-    pl = {"case": st, "kind": "cart-state"}
-    tag = "%s:%s" % (bc, "centre" if th else "split")
-    for wh in cart_pitches(bc):
-        g = cw.g[th, bc, wh]
-        u = (wh[0] / 2.0, wh[1] / 2.0)
-        col.check("cart:getCoordinates:" + ("centre" if th else "split"), obs["xy"], lat(g.getCoordinates((i, j, 0)), u),
-                  "cell centre in half-cell units", pl)
-        eq = tup(g.getSymmetricEquivalents((i, j)))
-        col.check("cart:getSymmetricEquivalents:" + tag, obs["equivSet"], sorted(eq),
-                  "quarter-core equivalents = images under the symmetry group, each once", pl)
-        col.check("cart:equivalent-coordinates:" + tag, obs["equivXY"],
-                  [lat(g.getCoordinates((d[0], d[1], 0)), u) for d in sorted(eq)],
-                  "centres of the reported equivalents = images of the cell centre", pl)
-        loc = g[i, j, 0]
-        col.check("cart:locatorInDomain:" + tag, obs["inDomain"], bool(g.locatorInDomain(loc)), "locatorInDomain = closed quadrant", pl)
-        if bc != "full":
-            orbit = [list(c)] + eq
-            cnt = sum(1 for d in orbit if g.locatorInDomain(g[d[0], d[1], 0]))
-            col.check("cart:orbit-in-domain:" + tag, obs["inDomainCount"], cnt,
-                      "members of the reported orbit inside the modelled quarter", pl)
+    pl = {"case": st, "kind": "cart-state", "pitch_history": [list(p) for p in (chain or (st["pitch"],))]}
+    shape = "square" if st["pitch"][0] == st["pitch"][1] else "rect"
+    tag = "%s:%s%s" % (bc, "centre" if th else "split", how)
+    col.check("cart:getCoordinates:%s:%s%s" % ("centre" if th else "split", shape, how), obs["xy"],
+              lat(g.getCoordinates((i, j, 0)), CART_HALF), "real cell centre (half length units)", pl)
+    eq = tup(g.getSymmetricEquivalents((i, j)))
+    col.check("cart:getSymmetricEquivalents:" + tag, obs["equivSet"], sorted(eq),
+              "quarter-core equivalents = images under the symmetry group, each once", pl)
+    col.check("cart:equivalent-coordinates:%s:%s" % (tag, shape), obs["equivXY"],
+              [lat(g.getCoordinates((d[0], d[1], 0)), CART_HALF) for d in sorted(eq)],
+              "real centres of the reported equivalents = images of the real cell centre under the group", pl)
+    loc = g[i, j, 0]
+    col.check("cart:locatorInDomain:" + tag, obs["inDomain"], bool(g.locatorInDomain(loc)), "locatorInDomain = closed quadrant", pl)
+    if bc != "full":
+        orbit = [list(c)] + eq
+        cnt = sum(1 for d in orbit if g.locatorInDomain(g[d[0], d[1], 0]))
+        col.check("cart:orbit-in-domain:" + tag, obs["inDomainCount"], cnt,
+                  "members of the reported orbit inside the modelled quarter", pl)
 
 
 def cart_edge_case(cw, e, col):
     st, gname = e["from"], e["act"]["g"]
     th, bc, c = st["th"], st["bc"], st["c"]
     pl = {"case": {"from": st, "g": gname}, "kind": "cart-apply"}
-    for wh in cart_pitches(bc):
-        g = cw.g[th, bc, wh]
-        u = (wh[0] / 2.0, wh[1] / 2.0)
-        orbit = sorted([list(c)] + tup(g.getSymmetricEquivalents((c[0], c[1]))))
-        tgt = e["obs"]["c"]
-        col.check("cart:generator-image-is-equivalent:%s" % bc, True, tgt in orbit,
-                  "the image of the cell under a generator of the group is the cell or one of its equivalents", pl)
-        col.check("cart:generator-image-coordinates", e["obs"]["xy"], lat(g.getCoordinates((tgt[0], tgt[1], 0)), u),
-                  "centre of the image cell = generator applied to the cell centre", pl)
-        orbit2 = sorted([list(tgt)] + tup(g.getSymmetricEquivalents((tgt[0], tgt[1]))))
-        col.check("cart:orbit-stable:%s" % bc, orbit, orbit2, "the image reports the same orbit", pl)
+    g = cw.grid(th, bc, (st["pitch"],))
+    orbit = sorted([list(c)] + tup(g.getSymmetricEquivalents((c[0], c[1]))))
+    tgt = e["obs"]["c"]
+    col.check("cart:generator-image-is-equivalent:%s" % bc, True, tgt in orbit,
+              "the image of the cell under a generator of the group is the cell or one of its equivalents", pl)
+    col.check("cart:generator-image-coordinates", e["obs"]["xy"], lat(g.getCoordinates((tgt[0], tgt[1], 0)), CART_HALF),
+              "real centre of the image cell = generator applied to the real cell centre", pl)
+    orbit2 = sorted([list(tgt)] + tup(g.getSymmetricEquivalents((tgt[0], tgt[1]))))
+    col.check("cart:orbit-stable:%s" % bc, orbit, orbit2, "the image reports the same orbit", pl)
 
 
 def run_cart(rep, thorough, mc=True):
@@ -302,7 +309,7 @@ def run_cart(rep, thorough, mc=True):
         res = tlc.run("CartSymmetry_mc", "CartSymmetry_mc%s.cfg" % sfx, MODDIR, want_prints=False, timeout=1200)
         rep.add_tlc("cart-exhaustive:CartSymmetry_mc%s.cfg" % sfx, res)
         verdict(rep, res, "CartSymmetry")
-        need_actions(res, ["ApplyB"])
+        need_actions(res, ["ApplyB", "ChangePitchB"])
     eres = tlc.run("CartSymmetry_mc", "CartSymmetry_emit%s.cfg" % sfx, MODDIR, workers=1, coverage=False, timeout=1200)
     if mc:
         rep.add_tlc("cart-cases:CartSymmetry_emit%s.cfg" % sfx, eres)
@@ -317,21 +324,48 @@ def run_cart(rep, thorough, mc=True):
 def check_cart(rep, data):
     cw = CartWorld(data["r"])
     col = Collector(rep)
-    seen = set()
+    obs_of = {}
     for s in data["states"]:
-        k = rp.skey(s["st"])
-        if k in seen:
-            continue
-        seen.add(k)
-        cart_state_case(cw, s["st"], s["obs"], col)
-    for e in data["edges"]:
+        obs_of.setdefault(rp.skey(s["st"]), s)
+    # 1. freshly built grids
+    for s in obs_of.values():
+        st = s["st"]
+        cart_state_case(cw.grid(st["th"], st["bc"], (st["pitch"],)), st, s["obs"], col)
+    # 2. generator steps
+    gen_edges = [e for e in data["edges"] if e["act"]["n"] == "Apply"]
+    for e in gen_edges:
         cart_edge_case(cw, e, col)
-    rep.add_replay("cartesian-cells", len(seen), sum(1 for s in data["states"] if s["obs"]["equivSet"]),
-                   "one real evaluation per (centre variant, boundary, cell): equivalents, their coordinates, domain, orbit "
-                   "count; non-trivial = the cell has equivalents")
-    rep.add_replay("cartesian-generator-edges", len(data["edges"]),
-                   sum(1 for e in data["edges"] if e["from"]["c"] != e["to"]["c"]),
+    # 3. ChangePitch edges, and two of them in a row: every query of the TARGET state on the grid that got there by changePitch
+    steps = {}
+    for e in data["edges"]:
+        if e["act"]["n"] == "ChangePitch":
+            steps.setdefault((e["from"]["th"], e["from"]["bc"], tuple(e["from"]["pitch"])), set()).add(tuple(e["to"]["pitch"]))
+    chains = []
+    for (th, bc, p0), nxt in sorted(steps.items()):
+        for p1 in sorted(nxt):
+            chains.append((th, bc, (p0, p1)))
+            for p2 in sorted(steps.get((th, bc, p1), ())):
+                chains.append((th, bc, (p0, p1, p2)))
+    by_grid = {}
+    for s in obs_of.values():
+        st = s["st"]
+        by_grid.setdefault((st["th"], st["bc"], tuple(st["pitch"])), []).append(s)
+    n_cp = 0
+    for th, bc, chain in chains:
+        g = cw.grid(th, bc, chain)
+        for s in by_grid[th, bc, chain[-1]]:
+            cart_state_case(g, s["st"], s["obs"], col, ":afterChangePitch", chain)
+            n_cp += 1
+    if not chains:
+        raise tlc.MachineryError("CartSymmetry emitted no ChangePitch edges")
+    rep.add_replay("cartesian-cells", len(obs_of), sum(1 for s in obs_of.values() if s["obs"]["equivSet"]),
+                   "one real evaluation per (centre variant, boundary, cell, cell shape) on a freshly built grid: real "
+                   "coordinates, equivalents, real coordinates of the equivalents, domain, orbit count; non-trivial = has equivalents")
+    rep.add_replay("cartesian-generator-edges", len(gen_edges), sum(1 for e in gen_edges if e["from"]["c"] != e["to"]["c"]),
                    "every generator step (R90 / MX / MY): the image is reported as equivalent and reports the same orbit")
+    rep.add_replay("cartesian-changePitch", n_cp, n_cp,
+                   "every ChangePitch edge and every two in a row (%d grid histories): all queries of the target state on the "
+                   "real grid after changePitch" % len(chains))
     mid = data["states"][len(data["states"]) // 2]
     rep.sample({"kind": "cart-state", "st": mid["st"], "expected": mid["obs"]})
     return col
@@ -846,7 +880,9 @@ def replay(payload):
             if kind == "cart-state":
                 for s in data["states"]:
                     if s["st"] == c:
-                        cart_state_case(cw, c, s["obs"], col)
+                        chain = tuple(tuple(x) for x in payload.get("pitch_history", [c["pitch"]]))
+                        cart_state_case(cw.grid(c["th"], c["bc"], chain), c, s["obs"], col,
+                                        ":afterChangePitch" if len(chain) > 1 else "", chain)
             else:
                 for e in data["edges"]:
                     if e["from"] == c["from"] and e["act"]["g"] == c["g"]:
@@ -1018,6 +1054,14 @@ def _mutants():
         return True
     out.append(("Cartesian locatorInDomain: 'i >= 0' written 'i > 0'", "cart", patch(CG, "locatorInDomain", cart_dom)))
 
+    # 11b changePitch rescales the y half-cell offset with the new x pitch
+    def change_pitch(self, xw, yw):
+        import numpy as np
+        xwOld, ywOld = self._unitSteps[0][0], self._unitSteps[1][1]
+        self._unitSteps = np.array(((xw, 0.0, 0.0), (0.0, yw, 0.0), (0, 0, 0)))[self._stepDims]
+        self._offset = np.array((self._offset[0] * xw / xwOld, self._offset[1] * xw / ywOld, 0.0))
+    out.append(("CartesianGrid.changePitch: y offset rescaled with xw instead of yw", "cart", patch(CG, "changePitch", change_pitch)))
+
     # 12 pivot direction reversed (as seen from blocks.py)
     orig_pivot = iterables.pivot
     out.append(("corner/edge data pivoted the other way", "block", patch(iterables, "pivot", lambda items, position: orig_pivot(items, -position))))
@@ -1029,6 +1073,23 @@ def _mutants():
             self.p.displacementX = dx * math.cos(rad) + dy * math.sin(rad)
             self.p.displacementY = -dx * math.sin(rad) + dy * math.cos(rad)
     out.append(("displacement rotated clockwise", "block", patch(HB, "_rotateDisplacement", rot_disp)))
+
+    # 13b displacement guard tests truthiness: displacementY == 0.0 exactly (dx != 0) is not rotated
+    def rot_disp0(self, rad):
+        dx, dy = self.p.get("displacementX"), self.p.get("displacementY")
+        if (dx is not None) and dy:
+            self.p.displacementX = dx * math.cos(rad) - dy * math.sin(rad)
+            self.p.displacementY = dx * math.sin(rad) + dy * math.cos(rad)
+    out.append(("displacement guard 'dispy is not None' written 'dispy' (dy == 0.0 not rotated)", "block", patch(HB, "_rotateDisplacement", rot_disp0)))
+
+    # 13c rotNum not reduced modulo a full turn: |k| >= 7 leaves corner/edge data unrotated
+    def rotate_nomod(self, rad):
+        rotNum = round(rad / math.radians(60))
+        self._rotateChildLocations(rad, rotNum)
+        self.p.orientation[2] += rotNum * 60
+        self._rotateBoundaryParameters(rotNum)
+        self._rotateDisplacement(rad)
+    out.append(("rotation number not reduced modulo 2 pi", "block", patch(HB, "rotate", rotate_nomod)))
 
     # 14 orientation decreases
     def rotate_ori(self, rad):
